@@ -60,3 +60,34 @@ Theorem c05_iteration_decreases_measure : forall (a : assets) (x : st) (l : lsta
   term_inv a x l -> cuw_iter a x l = ICont x' l' -> term_inv a x' l' /\ (mu a x' l' < mu a x l)%nat.
 Proof. exact cuw_iter_term. Qed.
 Print Assumptions c05_iteration_decreases_measure.
+
+(* Length limits: in every sprint of every history, the text of every msg_created event (CFL messages
+   are never built from a channel template) has at most max(MaxTemplateChars, 0) characters and the value
+   of every run_result_changed event at most max(MaxResultChars, 0) characters (characters = code
+   points; a negative limit counts as 0 - see the level note). *)
+From Verif Require Import proofs.EngineEvents.
+
+Definition within_limits (a : assets) (k : ekind) : Prop :=
+  match k with
+  | EMsgCreated t => (Z.of_nat (length t) <= Z.max (max_template_chars (a_opts a)) 0)%Z
+  | EResultChanged _ v _ => (Z.of_nat (length v) <= Z.max (max_result_chars (a_opts a)) 0)%Z
+  | _ => True
+  end.
+
+Theorem c05_lengths_after_start : forall (a : assets) (t : trigger) (flow : id) (x' : st),
+  start a t flow = ROk x' ->
+  forall oe, In oe (sp_events (sprint_ x')) -> within_limits a (ev_kind (snd oe)).
+Proof.
+  intros a t flow x' H oe Hin. destruct (start_accounts a t flow x' H) as [F _].
+  rewrite Forall_forall in F. destruct (F oe Hin) as [_ K]. exact K.
+Qed.
+Print Assumptions c05_lengths_after_start.
+
+Theorem c05_lengths_after_resume : forall (a : assets) (s : session) (r : resume) (tmo : text) (x' : st),
+  reachable s -> resume_session a s r tmo = Resumed (ROk x') ->
+  forall oe, In oe (sp_events (sprint_ x')) -> within_limits a (ev_kind (snd oe)).
+Proof.
+  intros a s r tmo x' Hr H oe Hin. destruct (reachable_resume_accounts a s r tmo x' Hr H) as [F _].
+  rewrite Forall_forall in F. destruct (F oe Hin) as [_ K]. exact K.
+Qed.
+Print Assumptions c05_lengths_after_resume.
